@@ -275,6 +275,10 @@ def skeleton_violations(mb_in, mb_out):
                 v.append(f"sg{si}: tensor {ti} renamed {tname(a)} -> {tname(b)}")
             if list(a.shape if a.shape is not None else []) != list(b.shape if b.shape is not None else []):
                 v.append(f"sg{si}: tensor {ti} reshaped")
+            sa, sb = getattr(a, "shapeSignature", None), getattr(b, "shapeSignature", None)
+            if list(sa if sa is not None else []) != list(sb if sb is not None else []):
+                v.append(f"sg{si}: tensor {ti} ({tname(a)}) has another shape signature ({list(sb) if sb is not None else None} instead of "
+                         f"{list(sa) if sa is not None else None}: dynamic dimensions are part of the tensor's shape)")
         # derived-from map through inserted ops
         root = {}
         kept = []
